@@ -2,17 +2,68 @@
 package gal
 
 import (
-	"encoding/hex"
 	"fmt"
 	"strings"
 )
 
-// S is a byte string, transported as hex and decoded in Coq by Base.Str.hx.
+// interning: every byte string longer than a few bytes is defined once per cases file
+// (Definition sN := us len [words]) and referenced by name.
+var (
+	internIdx  = map[string]int{}
+	internDefs []string
+)
+
+// ResetIntern starts a new cases file.
+func ResetIntern() { internIdx = map[string]int{}; internDefs = nil }
+
+// InternDefs returns the definitions of the strings interned since the last reset.
+func InternDefs() []string { return internDefs }
+
+func packed(s string) string {
+	var b strings.Builder
+	fmt.Fprintf(&b, "(us %d [", len(s))
+	for i := 0; i < len(s); i += 7 {
+		var w uint64
+		for j := 0; j < 7; j++ {
+			w <<= 8
+			if i+j < len(s) {
+				w |= uint64(s[i+j])
+			}
+		}
+		if i > 0 {
+			b.WriteString("; ")
+		}
+		fmt.Fprintf(&b, "0x%x%%uint63", w)
+	}
+	b.WriteString("])")
+	return b.String()
+}
+
+func plainASCII(s string) bool {
+	for i := 0; i < len(s); i++ {
+		c := s[i]
+		if c < 0x20 || c > 0x7e || c == '"' {
+			return false
+		}
+	}
+	return true
+}
+
+// S is a byte string.  Short printable ones are literals; others are packed and interned.
 func S(s string) string {
 	if s == "" {
 		return `""`
 	}
-	return `(hx "` + hex.EncodeToString([]byte(s)) + `")`
+	if len(s) <= 12 && plainASCII(s) {
+		return `"` + s + `"`
+	}
+	if i, ok := internIdx[s]; ok {
+		return fmt.Sprintf("s%d", i)
+	}
+	i := len(internDefs)
+	internIdx[s] = i
+	internDefs = append(internDefs, fmt.Sprintf("Definition s%d := Eval vm_compute in %s.", i, packed(s)))
+	return fmt.Sprintf("s%d", i)
 }
 
 // Lit is a literal Coq string; only for text known to be plain ASCII without quotes.
